@@ -162,6 +162,51 @@ def big_jobs(rng, tier, mk_terms, add):
                     add(norm(p), "free", logcalls=0, timeout_ms=180000)
 
 
+def capacity_sweep(rng, tier, add, quick_pairs):
+    """Pinned-vector targets grow by fragments (doubling: 4, 8, 16, 32, ...; linear: 16 each): sweep
+    prefix length x input length around the fragment boundaries, map-only and filtering."""
+    pres = [1, 3, 4, 5, 11, 12, 13, 27, 28, 29, 59, 60, 61]
+    lens = [1, 2, 4, 5, 8, 17, 33, 36]
+    pairs = [(a, b) for a in pres for b in lens]
+    rng.shuffle(pairs)
+    for (a, b) in pairs[:(quick_pairs if tier == "quick" else len(pairs))]:
+        for tk in (("split", "fixed") if tier == "quick" else ("split", "splitlin", "vec", "fixed")):
+            src = rng.choice(("vec", "range", "iter", "iterx"))
+            sh = rng.choice(["m", "m", "", "f"]) if src != "range" else rng.choice(["", "f"])
+            if tk == "splitlin":
+                src, sh = rng.choice(("vec", "iter")), rng.choice(["m", "f", ""])
+                if sh != "" and not full_ok(src, sh):
+                    sh = "m"
+            p = gen_prog(rng, src=src, shape=sh, n=b, nt=rng.choice([2, 3, 4]), cs=rng.choice([("cs", 1), ("cs", 2), None]))
+            if tk == "splitlin" and not full_ok(src, shape_of(p)):
+                continue
+            p["term"] = {"k": "collect_into", "tk": tk, "pre": [rng.randrange(V) for _ in range(a)], "cap": rng.choice([0, 0, 3])}
+            add(norm(p), "free" if rng.random() < 0.5 else "rand")
+
+
+def single_worker_jobs(rng, tier, add):
+    """Inputs of one or two elements with num_threads > 1: the runner resolves to a single worker
+    while still taking the parallel path; every filtering type x every collect target."""
+    fam = shapes_by_family(2, by_type=True)
+    terms = [{"k": "collect"}, {"k": "collect_vec"}, {"k": "collect_x"}, {"k": "collect_into", "tk": "split"},
+             {"k": "collect_into", "tk": "vec"}, {"k": "collect_into", "tk": "fixed"}]
+    for ty in sorted(fam):
+        for t in terms:
+            for n_ in ((1,) if tier == "quick" else (1, 2)):
+                sh = rng.choice(fam[ty])
+                src = rng.choice(("vec", "iter", "iterx"))
+                p = gen_prog(rng, src=src, shape=sh, n=n_, nt=rng.choice([2, 3, 8]), cs=rng.choice([None, ("cs", 1), ("cs", 4)]))
+                for o in p["ops"]:          # let the element through
+                    if o["k"] == "filter":
+                        o["t"] = [1] * V
+                    elif o["k"] == "fmap":
+                        o["t"] = [max(0, x) for x in o["t"]]
+                    elif o["k"] == "flat":
+                        o["tt"] = [x if x else [rng.randrange(V)] for x in o["tt"]]
+                p["term"] = dict(t)
+                add(norm(p), mode_mix(rng, 0.5))
+
+
 def jobs_for(prop, tier, seed):
     rng = random.Random(seed * 1000003 + int(prop[1:]))
     n = {"quick": 160, "thorough": 1600}[tier]
@@ -171,6 +216,7 @@ def jobs_for(prop, tier, seed):
         jobs.append(mk_job(len(jobs) + 1, p, mode or mode_mix(rng), rng, **kw))
 
     if prop == "C01":
+        single_worker_jobs(rng, tier, add)
         matrix(rng, tier, [lambda r, s_, sh: collect_term(r, s_, sh)], add, reps=3)
         big_jobs(rng, tier, [lambda r, s_, sh: {"k": "collect_vec"}, lambda r, s_, sh: {"k": "collect"},
                              lambda r, s_, sh: {"k": "collect_into", "tk": "split"},
@@ -205,25 +251,7 @@ def jobs_for(prop, tier, seed):
             return {"k": "collect_into", "tk": r.choice(["vec", "split", "fixed"]),
                     "pre": [r.randrange(V) for _ in range(r.choice([0, 1, 2, 3, 5, 9]))], "cap": r.choice([0, 0, 1, 4, 100])}
         matrix(rng, tier, [ci], add)
-        # pinned-vector targets grow by fragments (doubling: 4, 8, 16, 32, ...; linear: 16 each):
-        # sweep prefix length x input length around the fragment boundaries, map-only and filtering
-        pres = [1, 3, 4, 5, 11, 12, 13, 27, 28, 29, 59, 60, 61]
-        lens = [1, 2, 4, 5, 8, 17, 33, 36]
-        pairs = [(a, b) for a in pres for b in lens]
-        rng.shuffle(pairs)
-        for (a, b) in pairs[:(60 if tier == "quick" else len(pairs))]:
-            for tk in (("split", "fixed") if tier == "quick" else ("split", "splitlin", "vec", "fixed")):
-                src = rng.choice(("vec", "range", "iter", "iterx"))
-                sh = rng.choice(["m", "m", "", "f"]) if src != "range" else rng.choice(["", "f"])
-                if tk == "splitlin":
-                    src, sh = rng.choice(("vec", "iter")), rng.choice(["m", "f", ""])
-                    if sh != "" and not full_ok(src, sh):
-                        sh = "m"
-                p = gen_prog(rng, src=src, shape=sh, n=b, nt=rng.choice([2, 3, 4]), cs=rng.choice([("cs", 1), ("cs", 2), None]))
-                if tk == "splitlin" and not full_ok(src, shape_of(p)):
-                    continue
-                p["term"] = {"k": "collect_into", "tk": tk, "pre": [rng.randrange(V) for _ in range(a)], "cap": rng.choice([0, 0, 3])}
-                add(norm(p), "free" if rng.random() < 0.5 else "rand")
+        capacity_sweep(rng, tier, add, 60)
         for _ in range(n):
             shape = rng.choice(["", "m", "mm", "m", None, None])
             src = rng.choice(("iterx", "iter", "vec", "range", "slice", "iterx", "deque", "btree"))
@@ -312,6 +340,7 @@ def jobs_for(prop, tier, seed):
             add(norm(p), "free")
     elif prop == "C13":
         matrix(rng, tier, [lambda r, s_, sh: any_term(r, s_, sh)], add)
+        single_worker_jobs(rng, tier, add)
         for _ in range(n):
             add(with_term(rng, lambda r, s, sh: any_term(r, s, sh), sources=OWNING + ("slice", "range")))
     elif prop == "C14":
@@ -333,6 +362,8 @@ def jobs_for(prop, tier, seed):
                 continue
             add(p)
     elif prop == "C15":
+        capacity_sweep(rng, tier, add, 30)
+        single_worker_jobs(rng, tier, add)
         lens = list(range(0, 41)) + [63, 64, 65, 100, 257, 1000]
         nts = [None, 0, 1, 2, 3, 4, 5, 7, 8, 16, 17, 64]
         css = [None, ("cs", 0)] + [("cs", c) for c in (1, 2, 3, 4, 5, 7, 12, 64, 65536, 1 << 20)] + \
